@@ -28,6 +28,8 @@ type CleanCase struct {
 	ProjDir string `json:"proj_dir,omitempty"`
 	// Invoke: how spok is pointed at the project (sandbox.Box.Invoke)
 	Invoke    string     `json:"invoke,omitempty"`
+	// Outputs: "files" = standard output and error are regular files (sandbox.Box.FileOutputs)
+	Outputs string `json:"outputs,omitempty"`
 	Tree      []string   `json:"tree"` // relative to the project; trailing '/' = directory
 	Literal   []string   `json:"literal"`
 	Named     []NamedOut `json:"named"`
@@ -69,6 +71,7 @@ func genClean(t *rapid.T) CleanCase {
 	c := genCleanBody(t)
 	c.ProjDir = genProjDir(t)
 	c.Invoke = genInvoke(t)
+	c.Outputs = genOutputs(t)
 	return c
 }
 
@@ -167,6 +170,7 @@ func execClean(s *ev.Shard, b *sandbox.Box, c CleanCase) *rp.Fail {
 	if err := b.ResetFor(c.ProjDir, c.Invoke); err != nil {
 		return &rp.Fail{Sig: "harness", Msg: err.Error()}
 	}
+	b.FileOutputs = c.Outputs == "files"
 	src := c.source()
 	files := map[string]string{"spokfile": src}
 	var links [][2]string
